@@ -9,6 +9,8 @@ proved here: they are covered by the correspondence only (real-thread runs with 
 numbers and a closer thread; blocked-sender scenarios of the `net` engine) — see DESIGN.md.
 -/
 import NexoVerif.Lemmas.QueueRefine
+import NexoVerif.Lemmas.QueueCThm
+import NexoVerif.Extracted
 
 namespace NexoVerif.Queue
 set_option linter.unusedSimpArgs false
@@ -146,3 +148,201 @@ example : (Q.new 3).run [.push 1, .push 2, .push 3, .push 4, .pop, .push 5, .rel
   decide
 
 end NexoVerif.Queue
+
+/-! ## L2 — concurrent producers at the granularity of the atomic operations (M-QUEUE-C)
+
+Any number of producers and the consumer, every interleaving of their atomic steps (load of `enqueue_pos`, load of
+the slot's stamp, compare-and-swap, write of the message, store of the stamp; load of the stamp, read, advance of
+`dequeue_pos`; release of the slot; close), sequentially consistent.  Positions are logical here; their encoding in
+machine words is the first part of this file. -/
+namespace NexoVerif.CQ
+set_option linter.unusedSimpArgs false
+set_option linter.unusedVariables false
+
+/-- a loaded enqueue position is never ahead of the real one -/
+theorem loaded_pos_le {cap : Nat} {s : St} (h : Reach cap s) :
+    ∀ i v p, (s.prod i = .gotPos v p → p ≤ s.e) ∧ (∀ st, s.prod i = .gotStamp v p st → p ≤ s.e) := by
+  induction h with
+  | init => intro i v p; simp
+  | @step s0 s1 l hr hs ih =>
+    have key : ∀ (sx : St) (j w : Nat), (∀ i v p, (sx.prod i = .gotPos v p → p ≤ sx.e) ∧ (∀ st, sx.prod i = .gotStamp v p st → p ≤ sx.e)) →
+        ∀ i v p, ((loadPos sx j w).prod i = .gotPos v p → p ≤ (loadPos sx j w).e) ∧
+          (∀ st, (loadPos sx j w).prod i = .gotStamp v p st → p ≤ (loadPos sx j w).e) := by
+      intro sx j w hx i v p
+      unfold loadPos
+      split
+      · by_cases hij : i = j
+        · subst hij; simp
+        · simp only [upd_other _ _ hij]; exact hx i v p
+      · by_cases hij : i = j
+        · subst hij; simp; intro _ h; omega
+        · simp only [upd_other _ _ hij]; exact hx i v p
+    cases l with
+    | pBegin j w =>
+      simp only [step] at hs
+      split at hs
+      · simp only [Option.some.injEq] at hs; subst hs; exact key s0 j w ih
+      · simp at hs
+    | pLoadStamp j =>
+      simp only [step] at hs
+      split at hs
+      · rename_i w q hpc
+        simp only [Option.some.injEq] at hs; subst hs
+        intro i v p
+        by_cases hij : i = j
+        · subst hij; simp; intro _ h; subst h; exact (ih i w q).1 hpc
+        · simp only [upd_other _ _ hij]; exact ih i v p
+      · simp at hs
+    | pDecide j =>
+      simp only [step] at hs
+      split at hs
+      · split at hs
+        · split at hs
+          · simp only [Option.some.injEq] at hs; subst hs
+            intro i v p
+            by_cases hij : i = j
+            · subst hij; simp
+            · simp only [upd_other _ _ hij]
+              obtain ⟨a, b⟩ := ih i v p
+              exact ⟨fun h => by have := a h; omega, fun st h => by have := b st h; omega⟩
+          · simp only [Option.some.injEq] at hs; subst hs; exact key s0 j _ ih
+        · split at hs
+          · simp only [Option.some.injEq] at hs; subst hs
+            intro i v p
+            by_cases hij : i = j
+            · subst hij; simp
+            · simp only [upd_other _ _ hij]; exact ih i v p
+          · simp only [Option.some.injEq] at hs; subst hs; exact key s0 j _ ih
+      · simp at hs
+    | pWrite j =>
+      simp only [step] at hs
+      split at hs
+      · simp only [Option.some.injEq] at hs; subst hs
+        intro i v p
+        by_cases hij : i = j
+        · subst hij; simp
+        · simp only [upd_other _ _ hij]; exact ih i v p
+      · simp at hs
+    | pPublish j =>
+      simp only [step] at hs
+      split at hs
+      · simp only [Option.some.injEq] at hs; subst hs
+        intro i v p
+        by_cases hij : i = j
+        · subst hij; simp
+        · simp only [upd_other _ _ hij]; exact ih i v p
+      · simp at hs
+    | cPop =>
+      simp only [step] at hs
+      split at hs
+      · split at hs
+        · simp only [Option.some.injEq] at hs; subst hs; exact ih
+        · split at hs <;> (simp only [Option.some.injEq] at hs; subst hs; exact ih)
+      · simp at hs
+    | cRelease =>
+      simp only [step] at hs
+      split at hs
+      · simp only [Option.some.injEq] at hs; subst hs; exact ih
+      · simp at hs
+    | close => simp only [step, Option.some.injEq] at hs; subst hs; exact ih
+
+/-- **never_more_than_capacity** — under every interleaving of any number of producers with the consumer: the number
+of positions claimed and not yet released never exceeds the capacity. -/
+theorem never_more_than_capacity {cap : Nat} (hc : 0 < cap) {s : St} (h : Reach cap s) :
+    s.dRel ≤ s.d ∧ s.d ≤ s.e ∧ s.e - s.dRel ≤ s.cap := by
+  have i := reach_inv hc h
+  exact ⟨dRel_le s i, i.de, by have := i.bound; omega⟩
+
+/-- **received_in_claim_order_exactly_once** — the messages returned by `pop` are exactly the messages of positions
+0, 1, …, d − 1, in that order: each accepted message is received exactly once, in the order in which the producers'
+compare-and-swap operations succeeded; nothing is duplicated, lost in between, or torn. -/
+theorem received_in_claim_order_exactly_once {cap : Nat} (hc : 0 < cap) {s : St} (h : Reach cap s) :
+    s.popped = (s.claims.take s.d).map (·.2) ∧ s.claims.length = s.e := ⟨(reach_inv hc h).pops, (reach_inv hc h).clen⟩
+
+/-- **each_producer_in_its_own_order** — for every producer, the values of its pushes that returned `Ok`, in program
+order, followed by the one it is in the middle of publishing, are exactly the values of the positions it claimed, in
+position order: the consumer therefore receives the messages of each producer in the order they were sent. -/
+theorem each_producer_in_its_own_order {cap : Nat} {s : St} (h : Reach cap s) (i : Nat) :
+    acceptedOf s i ++ inflight s i = claimedOf s i := reach_pinv h i
+
+/-- **full_only_when_full** — `push` answers `Full` only if, when it loaded the stamp of its slot, as many positions
+were claimed and not released as the queue has slots. -/
+theorem full_only_when_full {cap : Nat} (hc : 0 < cap) {s : St} (h : Reach cap s) (i v p : Nat)
+    (hp : s.prod i = .gotPos v p) (hst : s.stamp (p % s.cap) < 2 * p) : s.e = s.dRel + s.cap := by
+  have inv := reach_inv hc h
+  have hpe := (loaded_pos_le h i v p).1 hp
+  have hslot : p % s.cap < s.cap := Nat.mod_lt _ inv.capPos
+  have hpar : ∃ p', s.stamp (p % s.cap) = 2 * p' ∨ s.stamp (p % s.cap) = 2 * p' + 1 := ⟨s.stamp (p % s.cap) / 2, by omega⟩
+  obtain ⟨p', hp' | hp'⟩ := hpar
+  · obtain ⟨b1, b2, b3⟩ := inv.even _ p' hslot hp'
+    have := cong_gap inv.capPos (by omega : p' < p) b1
+    have := inv.bound
+    omega
+  · obtain ⟨b1, b2, b3, _⟩ := inv.odd _ p' hslot hp'
+    have := cong_gap inv.capPos (by omega : p' < p) b1
+    have := inv.bound
+    omega
+
+/-- **closed_only_when_drained** — `pop` reports `Closed` only when the queue is closed and every claimed position has
+been received: messages accepted before the close remain receivable; and a `push` that starts after the close fails. -/
+theorem closed_only_when_drained {cap : Nat} (hc : 0 < cap) {s : St} (h : Reach cap s) :
+    (s.popClosed = true → s.closed = true ∧ s.d = s.e) ∧
+    (∀ i v s', s.closed = true → step (.pBegin i v) s = some s' → s'.prod i = .idle ∧ s'.results = s.results ++ [(i, v, .closed)] ∧ s'.e = s.e) := by
+  refine ⟨(reach_inv hc h).popClosed, ?_⟩
+  intro i v s' hcl hs
+  simp only [step] at hs
+  split at hs
+  · simp only [Option.some.injEq] at hs; subst hs
+    simp [loadPos, hcl]
+  · simp at hs
+
+/-- **a_pop_reads_a_published_slot** — when `pop` finds the stamp of its slot different from its position, the slot
+holds the completely written message of exactly that position (the `debug_assert` of the source), and no producer
+is writing into it. -/
+theorem a_pop_reads_a_published_slot {cap : Nat} (hc : 0 < cap) {s : St} (h : Reach cap s) (hidle : s.cons = .idle)
+    (hne : s.stamp (s.d % s.cap) ≠ 2 * s.d) :
+    s.stamp (s.d % s.cap) = 2 * s.d + 1 ∧ s.d < s.e ∧ (∃ pr, s.claims[s.d]? = some (pr, s.val (s.d % s.cap))) ∧
+    ∀ i v p, (s.prod i = .claimed v p ∨ s.prod i = .wrote v p) → p % s.cap ≠ s.d % s.cap := by
+  have inv := reach_inv hc h
+  have hdrel : s.dRel = s.d := by unfold St.dRel; rw [hidle]
+  have hslot : s.d % s.cap < s.cap := Nat.mod_lt _ inv.capPos
+  have hfilled : s.stamp (s.d % s.cap) = 2 * s.d + 1 ∧ s.d < s.e ∧ ∃ pr, s.claims[s.d]? = some (pr, s.val (s.d % s.cap)) := by
+    have hpar : ∃ p', s.stamp (s.d % s.cap) = 2 * p' ∨ s.stamp (s.d % s.cap) = 2 * p' + 1 :=
+      ⟨s.stamp (s.d % s.cap) / 2, by omega⟩
+    obtain ⟨p', hp' | hp'⟩ := hpar
+    · obtain ⟨b1, b2, b3⟩ := inv.even _ p' hslot hp'
+      rw [hdrel] at b2 b3
+      have : s.d = p' := cong_eq inv.capPos b3 b2 b1.symm
+      subst this; exact absurd hp' hne
+    · obtain ⟨b1, b2, b3, pr, b4⟩ := inv.odd _ p' hslot hp'
+      rw [hdrel] at b3
+      have hlt : p' < s.d + s.cap := by have := inv.bound; rw [hdrel] at this; omega
+      have : s.d = p' := cong_eq inv.capPos b3 hlt b1.symm
+      subst this; exact ⟨hp', b2, pr, b4⟩
+  refine ⟨hfilled.1, hfilled.2.1, hfilled.2.2, ?_⟩
+  intro i v p hpc heq
+  rcases hpc with hpc | hpc
+  · have := (inv.claimed i v p hpc).2.1; rw [heq] at this; omega
+  · have := (inv.wrote i v p hpc).2.1; rw [heq] at this; omega
+
+/-! non-vacuity: two producers and the consumer interleaved on a queue of capacity 1 -/
+example :
+    let ls : List Label := [.pBegin 0 7, .pBegin 1 8, .pLoadStamp 0, .pLoadStamp 1, .pDecide 1, .pDecide 0, .pWrite 1,
+      .pLoadStamp 0, .pDecide 0, .pPublish 1, .cPop, .pBegin 0 7, .pLoadStamp 0, .pDecide 0, .cRelease, .pBegin 0 7,
+      .pLoadStamp 0, .pDecide 0, .pWrite 0, .pPublish 0, .cPop]
+    (ls.foldlM (fun s l => step l s) ({ cap := 1 } : St)).map (fun s => (s.popped, s.results.map (·.2.2))) =
+      some ([8, 7], [.full, .ok, .full, .ok]) := by decide
+
+/-- **queue_program_shape** — the order of the atomic operations in `push`, `pop`, `MessageBorrow::drop` and `close`,
+read from the source on every run: it is the step structure of M-QUEUE-C (position load, stamp load with Acquire,
+compare-and-swap, stamp store with Release, position reload; stamp load with Acquire, position store, position load;
+stamp store with Release; fetch_or). -/
+theorem queue_program_shape :
+    Extracted.queuePush = [.load "enqueue_pos" .relaxed, .load "stamp" .acquire,
+      .cas "enqueue_pos" .relaxed .relaxed, .store "stamp" .release, .load "enqueue_pos" .relaxed] ∧
+    Extracted.queuePop = [.load "dequeue_pos" .relaxed, .load "stamp" .acquire,
+      .store "dequeue_pos" .relaxed, .load "enqueue_pos" .relaxed] ∧
+    Extracted.queueRelease = [.store "stamp" .release] ∧
+    Extracted.queueClose = [.rmw "enqueue_pos" "fetch_or" .relaxed] := by decide
+
+end NexoVerif.CQ
